@@ -557,12 +557,21 @@ std::vector<Sub> vh_subs() {
   {
     Sub s;
     s.name = "simple";
-    s.fields = {{"k", 0, 16}, {"which", 0, 3}, {"fam", 0, NFAM - 1}, {"cexp", -400, 400}, {"idx", 0, 65535}, {"amode", 0, 2}, F_SEED};
+    s.fields = {{"k", 0, 16}, {"which", 0, 3}, {"fam", 0, NFAM - 1}, {"cexp", -400, 400}, {"idx", 0, 65535}, {"amode", 0, 2}, F_SEED, {"kprev", 0, 17}};
     s.run = [](const Vals& v, Ctx& c) {
       Case cs;
       cs.k = (unsigned)v[0], cs.layout = (int)(v[1] >> 1), cs.dir = (int)(v[1] & 1), cs.fam = (int)v[2], cs.cexp = (int)v[3];
       cs.idx = (uint64_t)v[4], cs.amode = (int)v[5], cs.seed = (uint64_t)v[6];
       const uint32_t m = 1u << cs.k;
+      // the tables of the *_simple API are cached per dimension: first use the same function at ANOTHER dimension (kprev; 17 = none), so that
+      // every pair of dimensions meets in some process (a cache slot shared by two dimensions shows up only then)
+      if (v[7] <= 16 && (unsigned)v[7] != cs.k) {
+        const uint32_t mp = 1u << v[7];
+        std::vector<double> scratch(2 * (size_t)mp, 0.25);
+        if (cs.layout == REIM) { if (cs.dir == FWD) reim_fft_simple(mp, scratch.data()); else reim_ifft_simple(mp, scratch.data()); }
+        else { if (cs.dir == FWD) cplx_fft_simple(mp, scratch.data()); else cplx_ifft_simple(mp, scratch.data()); }
+        c.cls("simple:after-other-dimension");
+      }
       // the cached table is created at first use under whatever CPU mask is active: always the unmasked host here, so
       // that a case does not depend on the cases before it
       Call cl;
